@@ -105,9 +105,13 @@ def judge(proj, rec, box, cfg, built, expected, k, mode, sync=True):
 
 
 def work(job):
-    built, pi, proj, expected, k, signame, mode = job
+    built, pi, proj, expected, k, signame, mode = job[:7]
+    second = job[7] if len(job) > 7 else None
     res = {"evaluations": 1, "nontrivial": [], "violations": [], "samples": [], "inconclusive": {}, "counters": {}}
     rules = "n=%d,act=sig:%d" % (k, SIGS[signame])
+    if second:
+        rules += ";n=%d,act=sig:%d" % (k + second[0], SIGS[second[1]])
+        res["counters"]["double_signal_injections"] = 1
     with core.Box(tag="c18") as box:
         cfg = proj.materialise(box)
         rec = core.run_breadlog(built, box, cfg, check=(mode == "check"), rules=rules, timeout=120)
@@ -123,7 +127,7 @@ def work(job):
             return res
         v, info = judge(proj, rec, box, cfg, built, expected, k, mode)
     phase = info.get("phase") or "?"
-    res["nontrivial"].append("%s|%d|%s|%s" % (proj.label, k, signame, mode))
+    res["nontrivial"].append("%s|%d|%s|%s|%s" % (proj.label, k, signame, mode, second))
     res["counters"]["fired_%s_%s" % (signame, mode)] = 1
     res["counters"]["phase_" + phase] = 1
     res["counters"]["ended_" + rec.ended()] = 1
@@ -131,7 +135,7 @@ def work(job):
         res["violations"].append({"signature": "C18.%s|SIG%s|%s|%s" % (clause, signame, mode, phase),
                                   "detail": dict(detail, k=k, exit=rec.ended(), stdout_tail=rec.out[-250:],
                                                  ops=[(o["n"], o["kind"], os.path.basename(o["path"])) for o in (rec.shim or [])][max(0, k - 3):k + 6]),
-                                  "case": {"project": pi, "k": k, "sig": signame, "mode": mode}})
+                                  "case": {"project": pi, "k": k, "sig": signame, "mode": mode, "second": second}})
     if pi == 0 and k in (5, 14) and signame == "INT":
         res["samples"].append({"project": proj.label, "rule": rules, "mode": mode, "phase": phase, "ended": rec.ended(),
                                "post_states": info["states"], "ops_after_signal": [(o["n"], o["kind"], os.path.basename(o["path"])) for o in (rec.shim or []) if o["n"] >= k][:8]})
@@ -161,9 +165,13 @@ def async_work(job):
     res["nontrivial"].append("async|%s|%s|%d" % (signame, mode, min(9, int(10 * n_complete / max(1, len(files))))))
     for clause, detail in v:
         # a signal in the first milliseconds (before the handlers exist) may kill the process iff nothing was modified
-        if clause == "terminated-by-the-signal" and all(s == "original" for s in states.values()) and delay < 0.02:
-            res["counters"]["async_killed_at_startup_nothing_modified"] = 1
-            continue
+        # Start-up window, decided on what the process itself reported, not on the clock: the line "Running in ... mode" is
+        # logged right after the handlers are registered. Without it the signal arrived before the handlers existed, which
+        # may terminate the process - but then nothing has been modified.
+        if clause == "terminated-by-the-signal" and "Running in " not in rec.out:
+            if all(s == "original" for s in states.values()):
+                res["counters"]["async_killed_at_startup_nothing_modified"] = 1
+                continue
         if clause.startswith("source-file-torn") is False and clause == "source-file-complete?":
             continue
         res["violations"].append({"signature": "C18.%s|SIG%s|%s|async" % (clause, signame, mode),
@@ -194,6 +202,10 @@ def main(tier):
             for k in ks:
                 for s in SIGS:
                     jobs.append((built, pi, proj, expected, k, s, mode))
+            # a second signal while the run is stopping (same and the other signal, 1-3 operations later)
+            for k in ks[::3]:
+                for s, s2 in (("TERM", "INT"), ("INT", "INT"), ("TERM", "TERM")):
+                    jobs.append((built, pi, proj, expected, k, s, mode, (1 + (k % 3), s2)))
     rnd.shuffle(jobs)
     for res in frame.pmap(work, jobs, chunksize=8):
         ck.absorb(res)
@@ -234,7 +246,10 @@ def replay_witness(w, ck=None, built=None):
     ps = projects(w.get("tier", "quick"), w.get("seed", 0))
     proj = ps[c["project"]]
     ops, after, rec, expected, lock = fault.clean_reference(built, proj, check=(c["mode"] == "check"))
-    r = work((built, c["project"], proj, expected, c["k"], c["sig"], c["mode"]))
+    job = (built, c["project"], proj, expected, c["k"], c["sig"], c["mode"])
+    if c.get("second"):
+        job = job + ((c["second"][0], c["second"][1]),)
+    r = work(job)
     return bool(r["violations"])
 
 
